@@ -4,7 +4,11 @@
 //   T4 derivatives vs finite differences of the library's own map, T5 placebo transform,
 //   W0 (exhaustive lattice of the eight configurations), W1 state right after wrapping,
 //   W2 wrapper value = original function at the back-transformed point which satisfies the constraints,
-//   W3 chain rule for first/second/cross derivatives.
+//   W3 chain rule for first/second/cross derivatives,
+//   W4 histories on a SHARED wrapped function (moved directly, through a clone or a second wrapper) with
+//      re-evaluation of a wrapper at a coordinate vector it already holds.
+// Interval constraints are built with default and explicit boundary precisions (the constraint's `precision`
+// attribute does not change which values are legal, so every clause applies unchanged).
 #include "common/pbt.hpp"
 #include "common/bppcommon.hpp"
 
@@ -247,7 +251,9 @@ struct AbsBelow : public ConstraintInterface {
 };
 
 // configurations: 0 [a,b]  1 ]a,b[  2 [a,b[  3 ]a,b]  4 ]a,+inf[  5 [a,+inf[  6 ]-inf,b[  7 ]-inf,b]  8 unconstrained  9 non-interval
-struct PSpec { int cfg; double lo, hi; bool il, iu; double x0; string name; };
+// prec: the constraint's "accepted precision on the boundary" constructor argument; < 0 = not given (library default 1e-12).
+// It only feeds getAcceptedLimit(); isCorrect() - the set of legal values - does not depend on it.
+struct PSpec { int cfg; double lo, hi; bool il, iu; double x0; string name; double prec = -1; };
 bool accP(const PSpec& s, double v) {  // reference predicate of the original constraint
   if (s.cfg == 8) return true;
   if (s.cfg == 9) return std::abs(v) <= 1e6;
@@ -257,13 +263,15 @@ string showP(const PSpec& s) {
   ostringstream o; o << s.name << ":";
   if (s.cfg == 8) o << "free"; else if (s.cfg == 9) o << "|x|<=1e6";
   else o << (s.il ? "[" : "]") << vf::dec(s.lo) << ";" << vf::dec(s.hi) << (s.iu ? "]" : "[");
+  if (s.prec >= 0) o << "(precision " << vf::dec(s.prec) << ")";
   o << "=" << vf::dec(s.x0);
   return o.str();
 }
 shared_ptr<ConstraintInterface> consOf(const PSpec& s) {
   if (s.cfg == 8) return nullptr;
   if (s.cfg == 9) return make_shared<AbsBelow>(1e6);
-  return make_shared<IntervalConstraint>(s.lo, s.hi, s.il, s.iu);
+  if (s.prec < 0) return make_shared<IntervalConstraint>(s.lo, s.hi, s.il, s.iu);
+  return make_shared<IntervalConstraint>(s.lo, s.hi, s.il, s.iu, s.prec);
 }
 bool transformed(const PSpec& s) { return s.cfg <= 7; }
 Tr trOf(const PSpec& s) {  // the documented transform of the configuration (hyperbolic, unit scale)
@@ -280,20 +288,36 @@ void setShape(PSpec& s) {
 // bounds moves them inwards by 1e-12 ("correct the bound in order to prevent numerical issues"), which leaves such
 // values outside the transformed interval; the statement does not speak about them.
 const double OPEN_MIN = 4e-12;
+// a legal original value of the configuration (for the start value, and for moving the wrapped function directly)
+double genValue(vf::Ctx& c, const PSpec& s) {
+  double x;
+  if (s.cfg <= 3) {
+    if ((s.il || s.iu) && c.oneIn(5)) x = (s.il && (!s.iu || c.flag())) ? s.lo : s.hi;  // exactly on a closed bound
+    else x = genInside(c, s.lo, s.hi, s.il ? 0 : OPEN_MIN, s.iu ? 0 : OPEN_MIN);
+  } else if (s.cfg <= 7) {
+    bool pos = s.cfg <= 5, closed = pos ? s.il : s.iu; double b = pos ? s.lo : s.hi, dir = pos ? 1 : -1;
+    if (closed && c.oneIn(5)) x = c.flag() ? b : vf::ulpStep(b, static_cast<int>(dir) * (1 + static_cast<int>(c.below(3))));
+    else {
+      double d = genDist(c, closed ? 0 : OPEN_MIN); x = b + dir * d;
+      if (!accP(s, x)) x = b + dir * max(OPEN_MIN, 4 * EPS * std::abs(b));
+    }
+  } else x = c.flag() ? static_cast<double>(c.zig(10)) : c.real(-1e3, 1e3);
+  return x;
+}
+// The boundary precision given to the IntervalConstraint constructor: mostly absent (default), else zero, values so
+// small that bound +- precision rounds back to the bound, the default given explicitly, and values well above it.
+double genPrec(vf::Ctx& c) {
+  switch (c.weighted({5, 3, 1})) {
+    case 0: return -1;
+    case 1: { static const double ps[] = {0.0, 1e-16, 1e-9, 1e-14, 1e-12, 1e-6, 1e-15, 1e-10, 1e-3}; return c.pick(ps); }
+    default: return c.logu(1e-18, 1e-3);
+  }
+}
 PSpec genSpec(vf::Ctx& c, int i) {
   PSpec s; s.name = "p" + to_string(i); s.cfg = static_cast<int>(c.below(10));
   genBounds(c, s.lo, s.hi); setShape(s);
-  if (s.cfg <= 3) {
-    if ((s.il || s.iu) && c.oneIn(5)) s.x0 = (s.il && (!s.iu || c.flag())) ? s.lo : s.hi;  // exactly on a closed bound
-    else s.x0 = genInside(c, s.lo, s.hi, s.il ? 0 : OPEN_MIN, s.iu ? 0 : OPEN_MIN);
-  } else if (s.cfg <= 7) {
-    bool pos = s.cfg <= 5, closed = pos ? s.il : s.iu; double b = pos ? s.lo : s.hi, dir = pos ? 1 : -1;
-    if (closed && c.oneIn(5)) s.x0 = c.flag() ? b : vf::ulpStep(b, static_cast<int>(dir) * (1 + static_cast<int>(c.below(3))));
-    else {
-      double d = genDist(c, closed ? 0 : OPEN_MIN); s.x0 = b + dir * d;
-      if (!accP(s, s.x0)) s.x0 = b + dir * max(OPEN_MIN, 4 * EPS * std::abs(b));
-    }
-  } else s.x0 = c.flag() ? static_cast<double>(c.zig(10)) : c.real(-1e3, 1e3);
+  s.x0 = genValue(c, s);
+  if (s.cfg <= 7) s.prec = genPrec(c);
   return s;
 }
 
@@ -422,7 +446,11 @@ void checkInit(vf::Ctx& c, Fn& F, const Wr& W, const vector<double>& before, lon
 
 // ---- W2: one evaluation of the wrapper at coordinates tv (for the wrapper parameters listed in upd)
 // xcur: model of the point held by the wrapped function (updated).
-void checkEval(vf::Ctx& c, Fn& F, const Wr& W, const vector<size_t>& upd, const vector<double>& tv, bool useF, vector<double>& xcur) {
+// movedOutside: the shared function was moved by another route since this wrapper's last evaluation.  The named
+// coordinates must arrive whatever happened in between; what a PARTIAL update does to the wrapper's other
+// parameters in that situation is not fixed by the statement (the code documents "we only set parameters that have
+// been changed"), so only parameters outside the wrapper are then required to stay untouched.
+void checkEval(vf::Ctx& c, Fn& F, const Wr& W, const vector<size_t>& upd, const vector<double>& tv, bool useF, vector<double>& xcur, bool movedOutside = false) {
   ParameterList pl;
   for (size_t k = 0; k < upd.size(); ++k) pl.addParameter(Parameter(F.ps[upd[k]].name, tv[k]));
   for (size_t k = 0; k < upd.size(); ++k) if (overshootProne(F.ps[upd[k]], tv[k])) c.excludeIfKnown("C11-closed-upper-overshoot");
@@ -438,6 +466,7 @@ void checkEval(vf::Ctx& c, Fn& F, const Wr& W, const vector<size_t>& upd, const 
     xl[i] = F.f->getParameterValue(F.ps[i].name);
     CHECK(accP(F.ps[i], xl[i]), "back-transformed value " << vf::dec(xl[i]) << " of " << showP(F.ps[i]) << " violates the original constraint");
     bool updated = std::find(upd.begin(), upd.end(), i) != upd.end();
+    if (movedOutside && std::find(W.widx.begin(), W.widx.end(), i) != W.widx.end()) continue;
     if (!updated) CHECK(vf::sameBits(xl[i], xcur[i]), "parameter " << F.ps[i].name << " was not updated but changed from " << vf::dec(xcur[i]) << " to " << vf::dec(xl[i]));
   }
   double direct = F.f->evalNow();
@@ -700,6 +729,8 @@ LAW(W0_configs_enum, ENUM, 1, 1, 0, "a half-infinite configuration, an open boun
   } else { static const double XS[] = {0, 1, -2.5, 1000, -1e-9}; s.x0 = XS[pos]; }
   int kind = static_cast<int>(c.below(3));
   double t = TS[c.below(7)];
+  static const double PREC[] = {-1, 0.0, 1e-9};  // constraint precision: default, none, well above the wrapper's 1e-12 nudge
+  if (s.cfg <= 7) s.prec = PREC[c.below(3)];
   Fn F; F.ps.push_back(s); F.lin = {2}; F.cub = {-1}; F.q = {{1}}; F.build();
   c.desc << F.show();
   c.nt(ntSpec(s) || pos >= 3);
@@ -715,7 +746,7 @@ LAW(W0_configs_enum, ENUM, 1, 1, 0, "a half-infinite configuration, an open boun
 }
 
 // ------------------------------------------------------------------ W1 immediately after wrapping
-LAW(W1_after_wrapping, RC, 25000, 800000, 96, "some wrapped parameter is half-infinite, has an open bound, or starts within 1e-6 of a bound") {
+LAW(W1_after_wrapping, RC, 25000, 800000, 128, "some wrapped parameter is half-infinite, has an open bound, or starts within 1e-6 of a bound") {
   Fn F = genFn(c);
   int kind = static_cast<int>(c.below(3)); bool sub = c.oneIn(4), verbose = c.oneIn(8);
   vector<size_t> subset; if (sub) subset = genSubset(c, F.ps.size());
@@ -733,7 +764,7 @@ LAW(W1_after_wrapping, RC, 25000, 800000, 96, "some wrapped parameter is half-in
 }
 
 // ------------------------------------------------------------------ W2 value at the back-transformed point, constraints satisfied
-LAW(W2_value_and_constraints, RC, 30000, 1000000, 160, "some wrapped parameter is half-infinite or has an open bound, or a coordinate with |t| >= 19 (saturated tanh)") {
+LAW(W2_value_and_constraints, RC, 30000, 1000000, 192, "some wrapped parameter is half-infinite or has an open bound, or a coordinate with |t| >= 19 (saturated tanh)") {
   Fn F = genFn(c);
   int kind = static_cast<int>(c.below(3)); bool sub = c.oneIn(4);
   vector<size_t> subset; if (sub) subset = genSubset(c, F.ps.size());
@@ -755,7 +786,7 @@ LAW(W2_value_and_constraints, RC, 30000, 1000000, 160, "some wrapped parameter i
 }
 
 // ------------------------------------------------------------------ W3 chain rule
-LAW(W3_chain_rule, RC, 30000, 1000000, 160, "a transformed parameter whose function derivative is non-zero") {
+LAW(W3_chain_rule, RC, 30000, 1000000, 192, "a transformed parameter whose function derivative is non-zero") {
   Fn F = genFn(c);
   int kind = c.oneIn(3) ? 1 : 2; bool sub = c.oneIn(4);
   vector<size_t> subset; if (sub) subset = genSubset(c, F.ps.size());
@@ -773,6 +804,73 @@ LAW(W3_chain_rule, RC, 30000, 1000000, 160, "a transformed parameter whose funct
     checkChain(c, F, W, tv);
   }
   if (W.pending) c.excludeIfKnown(W.pending);
+}
+
+// ------------------------------------------------------------------ W4 histories on a shared wrapped function
+// The wrapper does not own the function (shared_ptr, shared with the caller, with clones and with other wrappers).
+// "Evaluated at ANY real-valued transformed point equals the original function at the back-transformed point" holds
+// for every evaluation of a history, in particular when the function was moved by another route in between and the
+// wrapper is evaluated again at a coordinate vector it already holds (nothing changes on the wrapper's side).
+LAW(W4_shared_function_history, RC, 20000, 600000, 320, "a wrapper is evaluated with at least one coordinate bitwise equal to the one it holds after the shared function was moved away from that value directly, through a clone or through a second wrapper") {
+  Fn F = genFn(c);
+  int kind = static_cast<int>(c.below(3)); bool sub = c.oneIn(5);
+  vector<size_t> subset; if (sub) subset = genSubset(c, F.ps.size());
+  c.desc << F.show() << " A:";
+  vector<Wr> Ws; Ws.push_back(wrap(F, kind, sub ? &subset : nullptr, false, c.desc));
+  vector<size_t> subset2;
+  switch (c.weighted({2, 2, 2})) {
+    case 0: break;
+    case 1: { Wr B = Ws[0]; B.w.reset(Ws[0].w->clone()); c.desc << " B: clone of A"; Ws.push_back(B); break; }
+    default: {
+      int k2 = static_cast<int>(c.below(3)); bool sub2 = c.oneIn(3); if (sub2) subset2 = genSubset(c, F.ps.size());
+      c.desc << " B:"; Ws.push_back(wrap(F, k2, sub2 ? &subset2 : nullptr, false, c.desc));
+    }
+  }
+  // moved[j]: the function left the point wrapper j put it at (or, before j's first evaluation, its initial point)
+  vector<bool> moved(Ws.size(), false);
+  auto fNow = [&] { vector<double> x; for (auto& s : F.ps) x.push_back(F.f->getParameterValue(s.name)); return x; };
+  int nops = c.irange(2, 5);
+  for (int op = 0; op < nops; ++op) {
+    size_t j = Ws.size() > 1 ? c.below(2) : 0; const Wr& W = Ws[j];
+    unsigned what = c.weighted({3, 2, 2});
+    if (what == 1) {  // move the function directly to other legal values
+      ParameterList pl; c.desc << "; direct(";
+      for (size_t i = 0; i < F.ps.size(); ++i) if (c.flag() || (i + 1 == F.ps.size() && pl.size() == 0)) {
+        double x = genValue(c, F.ps[i]); pl.addParameter(Parameter(F.ps[i].name, x)); c.desc << F.ps[i].name << "=" << vf::dec(x) << " ";
+      }
+      c.desc << ")";
+      vector<double> b = fNow();
+      if (c.flag()) F.f->setParameters(pl); else F.f->matchParametersValues(pl);
+      vector<double> a = fNow();
+      for (size_t i = 0; i < a.size(); ++i) if (!vf::sameBits(a[i], b[i])) for (size_t k = 0; k < Ws.size(); ++k) moved[k] = true;
+      continue;
+    }
+    vector<size_t> upd = W.widx;
+    if (c.oneIn(3)) { upd.clear(); for (size_t i : W.widx) if (c.flag()) upd.push_back(i); if (upd.empty()) upd = W.widx; }
+    // again: every named coordinate is bitwise the one the wrapper holds; otherwise fresh coordinates, some of them kept
+    bool again = what == 0, useF = !c.oneIn(4);
+    vector<double> tv; vector<bool> held;
+    c.desc << "; " << (j ? "B." : "A.") << (useF ? "f(" : "setParameters(");
+    for (size_t i : upd) {
+      bool keep = again || c.oneIn(4);
+      double t = keep ? W.w->getParameterValue(F.ps[i].name) : genT(c);
+      tv.push_back(t); held.push_back(vf::sameBits(t, W.w->getParameterValue(F.ps[i].name)));
+      c.desc << F.ps[i].name << (held.back() ? "=again " : "=") << vf::dec(t) << " ";
+    }
+    c.desc << ")";
+    vector<double> xcur = fNow(), b = xcur;
+    bool wasMoved = moved[j];
+    checkEval(c, F, W, upd, tv, useF, xcur, wasMoved);
+    bool changed = false, heldRestored = false;
+    for (size_t i = 0; i < b.size(); ++i) if (!vf::sameBits(b[i], xcur[i])) changed = true;
+    for (size_t k = 0; k < upd.size(); ++k) if (held[k] && !vf::sameBits(b[upd[k]], xcur[upd[k]])) heldRestored = true;
+    c.nt(wasMoved && heldRestored);
+    if (changed) for (size_t k = 0; k < Ws.size(); ++k) if (k != j) moved[k] = true;
+    if (upd.size() == W.widx.size()) moved[j] = false;
+    if (W.kind >= 1 && upd.size() == W.widx.size() && c.oneIn(4)) checkChain(c, F, W, currentT(F, W));
+  }
+  CHECK(vf::auditOffences() == 0, "run-time monitor: " << vf::auditFirst());
+  for (auto& W : Ws) if (W.pending) c.excludeIfKnown(W.pending);
 }
 
 static struct Init {
